@@ -1,6 +1,7 @@
 package batched
 
 import (
+	"github.com/cloudflare/pat-go/tokens"
 	"github.com/cloudflare/pat-go/tokens/type1"
 	"github.com/cloudflare/pat-go/tokens/type2"
 )
@@ -42,6 +43,14 @@ func VerifC04_batched_request_canon() {
 	vUnwindAssume(vBound("C04_batched_req_entries", 3, 4))
 	b := vBytes("b", 0, n)
 	r := &BatchedTokenRequest{}
+	if vBool("reused") {
+		// the decode target is a request the client API created earlier (and marshalled): whatever
+		// it carries, including any cached encoding, must not survive the decoding
+		prev, err := NewBasicClient().CreateTokenRequest([]tokens.TokenRequestWithDetails{&type1.BasicPrivateTokenRequest{TokenKeyID: vByte("prev_id"), BlindedReq: vBytes("prev_blinded", type1.Ne, type1.Ne)}})
+		vAssume(err == nil)
+		_ = prev.Marshal()
+		r = prev
+	}
 	if !r.Unmarshal(b) {
 		vReach("rejected")
 		return
